@@ -94,34 +94,39 @@ example : normKvs [(T "k", .list [.leaf (T "x"), .node [(T "a", .leaf (T "b"))]]
 
 /-! ### the fault on the wire, read by the reference decoder -/
 
-/-- XmlDocument: code, message, actor and detail of every fault -/
-theorem fault_roundtrip_xml (f : FaultV) :
+/-- XmlDocument: code, message, actor and detail of every fault — also of a generated subclass with declared
+    members, whose extra child elements (any number, any names but the unqualified `detail`) do not disturb
+    the standard ones -/
+theorem fault_roundtrip_xml (f : FaultV) (hm : ∀ m ∈ f.members, m.1 ≠ T "detail") :
     (encodeFault facts09 .xml f).bind (decodeFault .xml) =
-      some { f with detail := normTop11 f.detail, lang := T "en" } := by
-  simp [encodeFault, decodeFault, xmlToFault11_faultToXml11 facts09 (by decide) f]
+      some { f with detail := normTop11 f.detail, lang := T "en", members := [] } := by
+  simp [encodeFault, decodeFault, xmlToFault11_faultToXml11 facts09 (by decide) f hm]
 
 /-- SOAP 1.1: any code (the `faultcode` QName is read by its local part), any message, any detail -/
-theorem fault_roundtrip_soap11 (f : FaultV) :
+theorem fault_roundtrip_soap11 (f : FaultV) (hm : ∀ m ∈ f.members, m.1 ≠ T "detail") :
     (encodeFault facts09 .soap11 f).bind (decodeFault .soap11) =
-      some { f with detail := normTop11 f.detail, lang := T "en" } := by
-  simp [encodeFault, decodeFault, unwrapEnvelope_envelope, xmlToFault11_faultToXml11 facts09 (by decide) f]
+      some { f with detail := normTop11 f.detail, lang := T "en", members := [] } := by
+  simp [encodeFault, decodeFault, unwrapEnvelope_envelope, xmlToFault11_faultToXml11 facts09 (by decide) f hm]
 
 /-- SOAP 1.2: first segment Client or Server, arbitrary dotted sub-codes, any message, any detail, the language -/
 theorem fault_roundtrip_soap12 (f : FaultV) (first : Text) (rest : List Text)
-    (hs : splitOn '.' f.code = first :: rest) (hf : first = T "Client" ∨ first = T "Server") :
+    (hs : splitOn '.' f.code = first :: rest) (hf : first = T "Client" ∨ first = T "Server")
+    (hm : ∀ m ∈ f.members, m.1 ≠ tDetail12) :
     (encodeFault facts09 .soap12 f).bind (decodeFault .soap12) =
-      some { f with detail := f.detail.map normKvs } := by
-  obtain ⟨x, hx, hd⟩ := xmlToFault12_faultToXml12 facts09 (by decide) (by decide) f first rest hs hf
+      some { f with detail := f.detail.map normKvs, members := [] } := by
+  obtain ⟨x, hx, hd⟩ := xmlToFault12_faultToXml12 facts09 (by decide) (by decide) f first rest hs hf hm
   simp [encodeFault, decodeFault, hx, unwrapEnvelope_envelope, hd]
 
 /-- JSON / YAML / MessagePack documents, dict and list form: everything, exactly -/
 theorem fault_roundtrip_dict (asList : Bool) (f : FaultV) :
-    (encodeFault facts09 (.dict asList) f).bind (decodeFault (.dict asList)) = some { f with lang := T "en" } := by
+    (encodeFault facts09 (.dict asList) f).bind (decodeFault (.dict asList)) =
+      some { f with lang := T "en", members := [] } := by
   cases asList <;> simp [encodeFault, decodeFault, docToFault_faultToDict, docToFault_faultToList]
 
 /-- MessagePackRpc error frame -/
 theorem fault_roundtrip_msgpackrpc (f : FaultV) :
-    (encodeFault facts09 .msgpackRpc f).bind (decodeFault .msgpackRpc) = some { f with lang := T "en" } := by
+    (encodeFault facts09 .msgpackRpc f).bind (decodeFault .msgpackRpc) =
+      some { f with lang := T "en", members := [] } := by
   simp [encodeFault, decodeFault, rpcFrame, docToFault_faultToDict]
 
 /-- HttpRpc (`code \n\n message` as text/plain): code and message.
@@ -129,7 +134,7 @@ theorem fault_roundtrip_msgpackrpc (f : FaultV) :
     i.e. including actor and detail — this wire format has no place for them. -/
 theorem fault_roundtrip_httprpc_partial (f : FaultV) (hc : '\n' ∉ f.code) :
     (encodeFault facts09 .httpRpc f).bind (decodeFault .httpRpc) =
-      some { f with actor := [], detail := none, lang := T "en" } := by
+      some { f with actor := [], detail := none, lang := T "en", members := [] } := by
   simp [encodeFault, decodeFault, httpText, splitBlank_httpText f.code f.str hc]
 
 example : splitOn '.' (T "Client.a.b") = T "Client" :: [T "a", T "b"] := by decide
@@ -173,10 +178,10 @@ theorem fault_arrives (p : Proto) (c : Cls) (f g : FaultV)
   | none => simp [hw] at h
   | some w => exact ⟨w, fault_response p c f w hw, by simpa [hw] using h⟩
 
-example (c : Cls) (f : FaultV) :
+example (c : Cls) (f : FaultV) (hm : f.members = [(qn (T "tns") (T "extra"), T "x")]) :
     ∃ w, wsgi facts09 .soap11 none (.plain (.raises (.fault c f))) = .response 500 w ∧
-      decodeFault .soap11 w = some { f with detail := normTop11 f.detail, lang := T "en" } := by
-  have := fault_arrives .soap11 c f _ (fault_roundtrip_soap11 f)
+      decodeFault .soap11 w = some { f with detail := normTop11 f.detail, lang := T "en", members := [] } := by
+  have := fault_arrives .soap11 c f _ (fault_roundtrip_soap11 f (by rw [hm]; decide))
   rwa [status_soap_500 .soap11 rfl] at this
 
 /-- a status that was already chosen when the fault is raised (by the in protocol, e.g. Soap11's 405 for a
@@ -273,6 +278,18 @@ theorem no_swap (app : Proto) (preset : Option Nat) (u : UserCode) :
     wsgiSwap facts09 app none preset u = wsgi facts09 app preset u := by
   cases h : facts09.statusAsker <;> simp [wsgiSwap, wsgi, statusProto, h]
 
+/-! ### auxiliary methods -/
+
+/-- Whatever the auxiliary methods bound to the called method do — return, raise a Fault or any other exception
+    (handled inside their own context), or fail in a way that propagates out of their processing — the response to
+    the primary call is the one without them: a fault stays the fault, nothing of theirs is sent. -/
+theorem aux_does_not_interfere (app : Proto) (req : Option Proto) (preset : Option Nat) (u : UserCode)
+    (aux : List AuxOutcome) :
+    wsgiAux facts09 app req preset u aux = wsgiSwap facts09 app req preset u := by
+  have h : facts09.auxGuarded = true := by decide
+  simp only [wsgiAux, h]
+  cases wsgiSwap facts09 app req preset u <;> simp
+
 /-! ### non-Fault exceptions -/
 
 /-- non-interference: for every program (every raise site: function body, generator body, listeners), output protocol and pre-set status the whole response
@@ -313,9 +330,9 @@ theorem other_is_internal_error (p : Proto) (e : Exc) (v : Text) (later : Option
 theorem internal_error_decodes (p : Proto) :
     (encodeFault facts09 p internalError).bind (decodeFault p) = some internalError := by
   rcases p with _ | _ | _ | b | _ | _
-  · rw [fault_roundtrip_xml]; rfl
-  · rw [fault_roundtrip_soap11]; rfl
-  · rw [fault_roundtrip_soap12 internalError (T "Server") [] (by decide) (Or.inr rfl)]; rfl
+  · rw [fault_roundtrip_xml _ (by simp [internalError])]; rfl
+  · rw [fault_roundtrip_soap11 _ (by simp [internalError])]; rfl
+  · rw [fault_roundtrip_soap12 internalError (T "Server") [] (by decide) (Or.inr rfl) (by simp [internalError])]; rfl
   · rw [fault_roundtrip_dict]; rfl
   · rw [fault_roundtrip_msgpackrpc]; rfl
   · rw [fault_roundtrip_httprpc_partial internalError (by decide)]; rfl
@@ -324,10 +341,10 @@ theorem internal_error_decodes (p : Proto) :
 
 /-- SOAP 1.1 client: message and detail as sent; the code is the `faultcode` QName whose local part is the raised
     code (`hne`: a `Fault` never has an empty message — its constructor puts the type name there) -/
-theorem client11_sees (f : FaultV) (hne : f.str ≠ []) :
+theorem client11_sees (f : FaultV) (hne : f.str ≠ []) (hm : ∀ m ∈ f.members, m.1 ≠ T "detail") :
     ∃ w cf, encodeFault facts09 .soap11 f = some w ∧ client11 w = some cf ∧
       localPart cf.code = f.code ∧ cf.str = f.str ∧ cf.detail = normTop11 f.detail := by
-  refine ⟨_, _, rfl, client11_encode facts09 f, ?_, ?_, rfl⟩
+  refine ⟨_, _, rfl, client11_encode facts09 f hm, ?_, ?_, rfl⟩
   · exact localPart_prefixed _ (by decide) _
   · simp [ctorString, hne]
 
@@ -337,10 +354,10 @@ theorem client11_sees (f : FaultV) (hne : f.str ≠ []) :
     `client12-reason-stripped`): `cf.str = f.str` without the hypothesis `hstr`. -/
 theorem client12_sees_partial (f : FaultV) (first : Text) (rest : List Text)
     (hs : splitOn '.' f.code = first :: rest) (hf : first = T "Client" ∨ first = T "Server")
-    (hne : f.str ≠ []) (hstr : strip f.str = f.str) :
+    (hne : f.str ≠ []) (hstr : strip f.str = f.str) (hm : ∀ m ∈ f.members, m.1 ≠ tDetail12) :
     ∃ w cf, encodeFault facts09 .soap12 f = some w ∧ client12 facts09 w = some cf ∧
       code12ToSpyne cf.code = f.code ∧ cf.str = f.str ∧ cf.detail = f.detail.map normKvs := by
-  obtain ⟨x, hx, hc⟩ := client12_encode facts09 (by decide) (by decide) f first rest hs hf
+  obtain ⟨x, hx, hc⟩ := client12_encode facts09 (by decide) (by decide) f first rest hs hf hm
   refine ⟨.xml (envelope ns12 [x]), _, by simp [encodeFault, hx], hc, ?_, ?_, rfl⟩
   · exact code12ToSpyne_client _ (by decide) f.code first rest hs hf
   · simp [hstr, ctorString, hne]
